@@ -38,6 +38,15 @@ class Gen:
         self.m1 = r.choice([0, 1, 2, 3, 4, 8, 8, 8, -1, 16384, 20000])
         self.m2 = r.choice([0, 1, 2, 3, 4, 8, 8, 8, -1])
         self.clean = r.choice([0, 0, 1])
+        if r.random() < self.p.get("cfgx", 0.25):
+            # the rest of the Config: user name, password (also without a user name), will, keep-alive
+            user = r.choice([b"", b"", b"u", b"user"])
+            pw = r.choice([None, None, b"", b"pw", bytes(range(40))])
+            wm = r.choice([None, None, b"", b"bye"])
+            wq = r.choice([(0, 0), (1, 0), (0, 1)])
+            self.ops.append("cfgx %d %s %s %s %s %d %d %d" % (r.choice([0, 30, 65535]), H(user), "nil" if pw is None else H(pw),
+                                                             H(b"w/t") if wm is not None or r.random() < 0.3 else "-", "nil" if wm is None else H(wm),
+                                                             r.choice([0, 1]), wq[0], wq[1]))
         self.ops.append("init %s %d %d %d" % (H(b"cl" + bytes([r.randrange(97, 123)])), self.clean, self.m1, self.m2))
         self.reset_client_state()
         self.acc1 = self.acc2 = 0
@@ -451,8 +460,18 @@ class Gen:
         r = self.r
         if self.closed or not self.ensure_live():
             return
-        choice = r.randrange(8)
-        if choice == 0:
+        choice = r.randrange(10)
+        if choice >= 8:
+            # a valid packet whose remaining length ends early: the body stops inside a field (topic, identifier, return codes)
+            qos = r.choice([0, 1, 2])
+            topic = r.choice([b"x", self.topic()])
+            whole = r.choice([mq.publish(qos, topic, b"", 7 if qos else 0), mq.publish(qos, topic, b"", 7 if qos else 0),
+                              mq.ack("puback", 0x8000), mq.ack("pubrec", 0xc000), mq.ack("pubrel", 7), mq.ack("pubcomp", 0xc000),
+                              mq.suback(0x6000, [0]), mq.ack("unsuback", 0x4000)])
+            body = whole[2:]                              # every byte of these bodies is needed: any shorter length is a violation
+            body = body[:r.randrange(0, len(body))]
+            data = bytes([whole[0], len(body)]) + body
+        elif choice == 0:
             data = bytes(r.randrange(256) for _ in range(r.randrange(1, 12)))
         elif choice == 1:
             data = bytes([r.choice([0x00, 0x10, 0x20, 0x80, 0xa0, 0xc0, 0xe0, 0xf0]), 0])
